@@ -35,7 +35,14 @@ def run_id(g: GSpec, X, Y):
     from y0.algorithm.identify import identify_outcomes
     from y0.dsl import Variable
 
-    return identify_outcomes(g.to_nx(), {Variable(x) for x in X}, {Variable(y) for y in Y})
+    res = identify_outcomes(g.to_nx(), {Variable(x) for x in X}, {Variable(y) for y in Y})
+    if len(X) == 1 or len(Y) == 1:
+        # the documented single-Variable form of the arguments must give the same answer
+        one = lambda S: Variable(next(iter(S))) if len(S) == 1 else {Variable(s) for s in S}
+        alt = identify_outcomes(g.to_nx(), one(X), one(Y))
+        if alt != res:
+            raise AssertionError(f"identify_outcomes gives {alt} when a singleton is passed as a bare Variable but {res} when passed as a set")
+    return res
 
 
 def trace_lines():
